@@ -103,7 +103,10 @@ def build(root, case):
                 # compatible duplicate of a file owned by a sub-Manifest (other hash subset)
                 f = sorted(listed)[0]
                 if owner(case, f) != '':
-                    ls.append(C.entry_line('DATA', f, case['files'][f], ['SHA256']))
+                    tag = 'DATA'
+                    if case['types']:
+                        tag = {'metadata.xml': 'MISC', 'p-1.ebuild': 'EBUILD'}.get(os.path.basename(f), 'DATA')
+                    ls.append(C.entry_line(tag, f, case['files'][f], ['SHA256']))
         lines[d] = ls
         name = os.path.join(d, 'Manifest' + case['fmt'].get(d, '')) if d else 'Manifest'
         C.write_manifest(os.path.join(root, name), ls)
